@@ -835,6 +835,10 @@ func unmarshalProto(inBytes []byte, outi interface{}) error {
 		}
 	}
 	for i := range in.Link {
+		if in.Link[i] == "" {
+			// marshalProto writes absent links as ""
+			continue
+		}
 		out.Link[i] = in.Link[i]
 	}
 	return nil
